@@ -644,3 +644,52 @@ Proof.
   revert H0. generalize (fst (e_start cfg p lb s)). induction evs as [|e evs IH]; intros st Hst; [exact Hst|].
   cbn [e_run]. apply IH. apply e_step_no_forb. exact Hst.
 Qed.
+
+(* ------------------------------------------------------------------------------------------- *)
+(* 10. a forbidden hash is refused EVERY time it is submitted                                   *)
+(*     (it is never stored, so the duplicate check - the only answer that precedes the         *)
+(*     forbidden-list check - can never fire for it; there is no other memory of past hashes)   *)
+(* ------------------------------------------------------------------------------------------- *)
+Theorem forbidden_always_refused f gid gpl hs h : memN gid f = false -> memN (s_id h) f = true ->
+  plan f (run f gid gpl hs) h = (Forbidden, []) /\ add f (run f gid gpl hs) h = (run f gid gpl hs, Forbidden).
+Proof.
+  intros Hg Hf. pose proof (forbidden_never_stored f gid gpl hs (s_id h) Hg Hf) as Hn.
+  split; [unfold plan; rewrite Hn, Hf; reflexivity| apply add_forbidden; assumption].
+Qed.
+
+Lemma outcomes_app f pre : forall s rest, outcomes f s (pre ++ rest) = outcomes f s pre ++ outcomes f (run_from f s pre) rest.
+Proof.
+  induction pre as [|h pre IH]; intros s rest; [reflexivity|].
+  cbn [app outcomes]. unfold run_from. cbn [fold_left]. destruct (add f s h) as [s' o] eqn:E. cbn [fst].
+  fold (run_from f s' pre). rewrite IH. reflexivity.
+Qed.
+
+Lemma outcomes_length f hs : forall s, length (outcomes f s hs) = length hs.
+Proof. induction hs as [|h hs IH]; intros s; [reflexivity|]. cbn [outcomes]. destruct (add f s h). cbn. rewrite IH. reflexivity. Qed.
+
+(* in ANY history - in particular one that already contains the same hash any number of times - the submission is answered Forbidden *)
+Theorem forbidden_every_time f gid gpl pre h post : memN gid f = false -> memN (s_id h) f = true ->
+  nth (length pre) (outcomes f (init gid gpl) (pre ++ h :: post)) ErrNoTip = Forbidden.
+Proof.
+  intros Hg Hf. rewrite outcomes_app. rewrite app_nth2; rewrite outcomes_length; [|lia]. rewrite Nat.sub_diag.
+  cbn [outcomes nth]. fold (run f gid gpl pre). destruct (forbidden_always_refused f gid gpl pre h Hg Hf) as [_ Ea]. rewrite Ea. reflexivity.
+Qed.
+
+(* the engines: after ANY sequence of events the store holds no forbidden row, so the sender of a forbidden header is dropped
+   at any later time too - a second, third ... delivery of the same hash by whichever peer *)
+Lemma d_run_no_forb cfg evs : forall st, no_forb (c_forb cfg) (d_store st) -> no_forb (c_forb cfg) (d_store (d_run cfg st evs)).
+Proof. induction evs as [|[hint e] evs IH]; intros st Hst; [exact Hst|]. cbn [d_run]. apply IH, d_step_no_forb, Hst. Qed.
+
+Theorem rejected_peer_dropped_every_time cfg s0 evs p c o pre h post s1 rc1 fin1 :
+  no_forb (c_forb cfg) s0 ->
+  let st := d_run cfg (d_init cfg s0) evs in
+  aget p (d_states st) = Some c -> d_hfm st = true -> aget p (d_objs st) = Some o -> po_conn o = true ->
+  hloop (c_forb cfg) (d_next st) (d_store st) false None pre = HDone s1 rc1 fin1 ->
+  memN (s_id h) (c_forb cfg) = true ->
+  exists st', on_headers cfg st p (pre ++ h :: post) = (st', [Ban p; Disconnect p]) /\ d_store st' = s1.
+Proof.
+  intros Hs st Hst Hh Ho Hc Hpre Hf.
+  assert (Hnf: no_forb (c_forb cfg) (d_store st)) by (apply d_run_no_forb; exact Hs).
+  destruct (rejected_peer_dropped_default' cfg st p c o pre h post s1 rc1 fin1 Hnf Hst Hh Ho Hc Hpre Hf) as (st' & E & Es & _).
+  exists st'. auto.
+Qed.
